@@ -2061,6 +2061,51 @@ combo("R21-2-eq-null-any", ["C19"], "the spelled-out eq treats null as equal to 
 combo("R21-2-cmp-swapped", ["C19"], "the spelled-out cmp compares other with self for two objects", "R21-2",
       [ed(S, "(false, false) => unsafe { self.deref().cmp(other.deref()) },", "(false, false) => unsafe { other.deref().cmp(self.deref()) },")], ["CMP-DELEGATE"])
 
+# ---- round-7 seeds: the two halves of the PAIR seed S-C09-7 are each behaviour-preserving; only together do they break C09
+mut("ok-pair-C09-7-stamp-null", "benign", [], "with_timestamp stamps null words too (a stamped null is still null for every consumer)",
+    [ed(S, """        if self.is_null() {
+            self
+        } else {
+            self.with_high_tag(global_epoch())
+        }""", "        self.with_high_tag(global_epoch())")])
+mut("ok-pair-C09-7-null-no-retry", "benign", [], "AtomicWeak CAS does not retry for a null expected word (no null word carries epoch bits "
+    "as long as with_timestamp leaves null alone: rely/guarantee between LINK-STAMP and CAS-EPOCH-BLIND)",
+    [ed(W, "if current_raw.ptr_eq(expected_raw) {", "if !expected_raw.is_null() && current_raw.ptr_eq(expected_raw) {", 3)])
+mut("pair-C09-7-null-retry-strong-side", "break", ["C08"], "the same pair on AtomicRc: null stamped and no retry for a null expected word",
+    [ed(S, """        if self.is_null() {
+            self
+        } else {
+            self.with_high_tag(global_epoch())
+        }""", "        self.with_high_tag(global_epoch())"),
+     ed(S, "if current_raw.ptr_eq(expected_raw) {", "if !expected_raw.is_null() && current_raw.ptr_eq(expected_raw) {", 3)],
+    ["CAS-EPOCH-BLIND"])
+
+# benign twins of the PAIR seed S-C06-7 (selftest/twins/): each part alone keeps the behaviour
+mut("ok-twin-C06-7-hardening", "benign", [], "try_destruct returns at once on an already DESTRUCTED word (hardening; the arm is dead)",
+    [{"patch": "selftest/twins/C06-7-hardening.diff"}])
+mut("ok-twin-C06-7-flatten", "benign", [], "dispose_general_node flattened into guard clauses (`if depth > 0 && !le {defer; return}`), depth cap in place",
+    [{"patch": "selftest/twins/C06-7-flatten.diff"}])
+mut("ok-twin-C06-7-flatten-hardening", "benign", [], "both of the above",
+    [{"patch": "selftest/twins/C06-7-flatten-hardening.diff"}])
+mut("handoff-after-mark-debug-assert", "break", ["C04", "C06"], "the cascade marks the node at the depth cap and then defers try_destruct, "
+    "whose debug assertion on !destructed fires (debug builds): S-C06-7's second half alone",
+    [ed(U, """    if depth >= 1024 {
+        // Prevent a potential stack overflow.
+        guard.defer_with_inner(rc, |rc| RcInner::try_destruct(rc));
+        return;
+    }
+""", ""),
+     ed(U, """        rc.data_mut().pop_edges(&mut outgoings);
+        unsafe {""", """        if depth >= 1024 {
+            guard.defer_with_inner(rc, |rc| RcInner::try_destruct(rc));
+            return;
+        }
+        rc.data_mut().pop_edges(&mut outgoings);
+        unsafe {""")], ["CW-ZERO-DEFERS"])
+
+mut("ok-twin-C05-7-update-state", "benign", [], "the seven CAS loops on the count word folded into one RcInner::update_state(|old| ..) helper "
+    "(S-C05-7 with its one slip corrected)", [{"patch": "selftest/twins/C05-7-update-state.diff"}])
+
 # behaviour-preserving refactorings written by sub-agents told to keep every interleaving's behaviour (selftest/refactors/)
 for f in sorted(glob.glob(os.path.join(HERE, "refactors", "*.diff"))):
     name = os.path.basename(f)[:-5]
